@@ -213,12 +213,12 @@ theorem i3_den_eq (f : Sem) (j : Job) (cl : Cluster) (wf : WF j cl) (t k : Nat) 
 
 /-- a transmit or task-sequence command does not touch what Tier 3 talks about -/
 theorem i3_applyCmd_other (j : Job) (cl : Cluster) (e : Env) (cmd : Cmd)
-    (hc : (∃ ds a b, cmd = .transmit ds a b) ∨ (∃ w t, cmd = .taskSeq w t)) :
+    (hc : (∃ ds a b, cmd = .transmit ds a b) ∨ (∃ w t pb, cmd = .taskSeq w t pb)) :
     (applyCmd j cl e cmd).present = e.present ∧ (applyCmd j cl e cmd).delivered = e.delivered ∧
     (applyCmd j cl e cmd).pending = e.pending ∧
     (∀ ds, (applyCmd j cl e cmd).outstanding.filter (isFetchOf ds) = e.outstanding.filter (isFetchOf ds)) ∧
     ("C04 purge-before-output-delivered" ∉ e.viol → "C04 purge-before-output-delivered" ∉ (applyCmd j cl e cmd).viol) := by
-  rcases hc with ⟨ds, a, b, rfl⟩ | ⟨w, t, rfl⟩
+  rcases hc with ⟨ds, a, b, rfl⟩ | ⟨w, t, pb, rfl⟩
   · refine ⟨by simp [applyCmd], by simp [applyCmd], by simp [applyCmd], ?_, ?_⟩
     · intro ds'; simp [applyCmd, List.filter_append, isFetchOf]
     · intro hv; rw [mem_viol_transmit]; simp [hv]
@@ -227,7 +227,7 @@ theorem i3_applyCmd_other (j : Job) (cl : Cluster) (e : Env) (cmd : Cmd)
     · intro hv; rw [mem_viol_taskSeq]; simp [hv]
 
 theorem i3_applyCmds_other (j : Job) (cl : Cluster) (cmds : List Cmd) (e : Env)
-    (hc : ∀ cmd ∈ cmds, (∃ ds a b, cmd = .transmit ds a b) ∨ (∃ w t, cmd = .taskSeq w t)) :
+    (hc : ∀ cmd ∈ cmds, (∃ ds a b, cmd = .transmit ds a b) ∨ (∃ w t pb, cmd = .taskSeq w t pb)) :
     (applyCmds j cl e cmds).present = e.present ∧ (applyCmds j cl e cmds).delivered = e.delivered ∧
     (applyCmds j cl e cmds).pending = e.pending ∧
     (∀ ds, (applyCmds j cl e cmds).outstanding.filter (isFetchOf ds) = e.outstanding.filter (isFetchOf ds)) ∧
@@ -242,13 +242,13 @@ theorem i3_applyCmds_other (j : Job) (cl : Cluster) (cmds : List Cmd) (e : Env)
     obtain ⟨b1, b2, b3, b4, b5⟩ := h2
     exact ⟨by rw [b1, a1], by rw [b2, a2], by rw [b3, a3], fun ds => by rw [b4, a4], fun hv => b5 (a5 hv)⟩
 
-theorem i3_actCmds_other (a : Asg) (prep : List (Ds × Host)) :
-    ∀ cmd ∈ actCmds a prep, (∃ ds a b, cmd = Cmd.transmit ds a b) ∨ (∃ w t, cmd = Cmd.taskSeq w t) := by
+theorem i3_actCmds_other (j : Job) (a : Asg) (prep : List (Ds × Host)) :
+    ∀ cmd ∈ actCmds j a prep, (∃ ds a b, cmd = Cmd.transmit ds a b) ∨ (∃ w t pb, cmd = Cmd.taskSeq w t pb) := by
   intro cmd hm
   simp only [actCmds, List.mem_append, List.mem_map, List.mem_singleton] at hm
   rcases hm with ⟨p, _, rfl⟩ | rfl
   · exact Or.inl ⟨_, _, _, rfl⟩
-  · exact Or.inr ⟨_, _, rfl⟩
+  · exact Or.inr ⟨_, _, _, rfl⟩
 
 /-- purge commands for one dataset -/
 theorem i3_applyCmds_purge (j : Job) (cl : Cluster) (ds : Ds) (cmds : List Cmd) (e : Env)
